@@ -493,6 +493,8 @@ void model_dispatch(lp_id_t me, simtime_t now, unsigned type, const void *conten
 			budget = 0;
 		if(P.m_pred == 2 && me % 2 == 0)
 			budget = 1;
+		if(P.m_pred == 4) /* every LP is complete right after LP_INIT: nothing needs to run */
+			budget = 0;
 		s->budget = budget;
 		s->limit = P.m_absorbing ? budget : budget + (uint32_t)P.m_extra;
 		if(P.m_endless)
